@@ -160,6 +160,14 @@ func (a *FuncAction) Exec(ctx context.Context, bs Bindings, props StepProps) (*E
 		}
 	}
 
+	// The function gets bindings of its own: what it deletes from
+	// or overwrites in the map it is given must not reach the
+	// caller's state (which those bindings usually are), and must
+	// still be there when the function fails or rejects.
+	if bs != nil {
+		bs = bs.Copy()
+	}
+
 	exe, err := a.F(ctx, bs, props)
 
 	// Restore the permanent bindings only when the execution returned
